@@ -276,6 +276,7 @@ func blockOnListChange(ctx *cmdContext, keyName string, timeoutNs int64, op func
 		op,
 		func() string { return fmt.Sprintf("key '%s'", keyName) },
 		func() *wakeSignal { return ctx.dsc.ds.enterListBlock(keyName) },
+		[]string{keyName},
 	)
 }
 
@@ -286,7 +287,27 @@ func blockOnListChangeMultiKey(ctx *cmdContext, keyNames []string, timeoutNs int
 		op,
 		func() string { return fmt.Sprintf("keys %s", keyNames) },
 		func() *wakeSignal { return ctx.dsc.ds.enterListMultiBlock(keyNames) },
+		keyNames,
 	)
+}
+
+// the list a completed blocking command took its element(s) from ("" if none)
+func poppedListKey(output respValue, keyNames []string) string {
+	switch v := output.data.(type) {
+	case nil, respErrorString:
+		return ""
+	case respArray:
+		// BLPOP, BRPOP, BLMPOP: [key, element(s)]
+		if len(keyNames) > 1 && len(v) > 0 {
+			if keyName, ok := v[0].data.(respBulkString); ok {
+				return string(keyName)
+			}
+		}
+	}
+	if len(keyNames) == 1 {
+		return keyNames[0]
+	}
+	return ""
 }
 
 func blockOnListChangeWorker(
@@ -295,6 +316,7 @@ func blockOnListChangeWorker(
 	op func() (output respValue),
 	keyNameStr func() string,
 	blockFn func() *wakeSignal,
+	keyNames []string,
 ) (output respValue) {
 
 	// initial non blocking call
@@ -317,7 +339,18 @@ func blockOnListChangeWorker(
 
 	simYield("block.before-register")
 	ws := blockFn()
-	defer func() { ctx.dsc.ds.leaveListBlock(ws) }()
+	usedWakeUp := false
+	defer func() {
+		// A push to one list wakes exactly one waiter. If this client was woken
+		// for a list and did not take the element because of that wake-up (it was
+		// served through another of its keys, had found its element before, or
+		// timed out or was unblocked at the same moment), the element is still
+		// there and the wake-up is passed on to the next waiter.
+		wokenFor := ctx.dsc.ds.leaveListBlock(ws)
+		if wokenFor != "" && !(usedWakeUp && wokenFor == poppedListKey(output, keyNames)) {
+			ctx.dsc.wakeListWaiter(wokenFor)
+		}
+	}()
 	simYield("block.after-register")
 
 	// with notification registered, try operation again immediately
@@ -407,6 +440,7 @@ func blockOnListChangeWorker(
 		// list element probably exists and the operation will succeed
 		output = op()
 		if output.data != nil {
+			usedWakeUp = true
 			return
 		}
 		// A different client obtained the list element before this client could.
